@@ -172,7 +172,8 @@ def finish(ctx, t0, explanation, rule_text, extra_cov=None, seed=0, write=True, 
             with open(path, "w", encoding="utf-8") as f:
                 json.dump({"property": ctx.prop, "tier": ctx.tier, "obligation": o.to_json(), "root": ctx.prog.root}, f, indent=1, default=str)
         print("  rule %s at %s: %s" % (o.rule, o.loc, o.text))
-        for k, v in (o.detail or {}).items():
+        detail = o.detail if isinstance(o.detail, dict) else ({"detail": o.detail} if o.detail else {})
+        for k, v in detail.items():
             print("      %s: %s" % (k, v if isinstance(v, str) else json.dumps(v, default=str)[:600]))
         lines.append("VIOLATION property=%s replay=%s" % (ctx.prop, path))
     for ln in lines:
